@@ -335,7 +335,8 @@ def child_behaviour(arg):
             env['DEEP_SERVICE_SECURE'] = ['False', 'false', 'no'][variant]
             code.pop('SERVICE_SECURE')
         else:
-            code['SERVICE_SECURE'] = ['False', 'false', 'no'][variant]
+            # (in code the natural spelling is the boolean itself)
+            code['SERVICE_SECURE'] = [False, 'false', 'no'][variant]
     elif setting == 'AUTH':
         give('SERVICE_AUTH_PROVIDER', 'deep.api.auth.BasicAuthProvider')
         for k, v in (('SERVICE_USERNAME', 'user%d' % variant), ('SERVICE_PASSWORD', 'pw-%d' % variant)):
